@@ -152,7 +152,7 @@ def _transpose_step(step, interval, direction):
     inverval
 
     """
-    op = lambda x, y: abs(x + y) % 7 if direction == "up" else abs(x - y) % 7
+    op = lambda x, y: (x + y) % 7 if direction == "up" else (x - y) % 7
     if interval == "P1":
         pass
     else:
@@ -172,24 +172,24 @@ def _transpose_note_inplace(note, interval):
     if interval.quality + str(interval.number) == "P1":
         pass
     else:
-        # TODO work for arbitrary octave.
         prev_step = note.step.capitalize()
+        prev_octave = note.octave
+        sign = 1 if interval.direction == "up" else -1
         note.step = _transpose_step(prev_step, interval.number, interval.direction)
-        if STEPS[note.step] - STEPS[prev_step] < 0 and interval.direction == "up":
-            note.octave += 1
-        elif STEPS[note.step] - STEPS[prev_step] > 0 and interval.direction == "down":
-            note.octave -= 1
-        else:
-            note.octave = note.octave
+        # the octave follows the letter: it changes each time the letters wrap past B / below C
+        note.octave = prev_octave + (STEPS[prev_step] + sign * (interval.number - 1)) // 7
         prev_alter = note.alter if note.alter is not None else 0
-        prev_pc = MIDI_BASE_CLASS[prev_step.lower()] + prev_alter
-        tmp_pc = MIDI_BASE_CLASS[note.step.lower()]
-        if interval.direction == "up":
-            diff_sm = tmp_pc - prev_pc if tmp_pc >= prev_pc else tmp_pc + 12 - prev_pc
-        else:
-            diff_sm = prev_pc - tmp_pc if prev_pc >= tmp_pc else prev_pc + 12 - tmp_pc
+        # signed semitone distance between the two natural letters (octaves included)
+        natural_diff = (
+            MIDI_BASE_CLASS[note.step.lower()]
+            + 12 * note.octave
+            - MIDI_BASE_CLASS[prev_step.lower()]
+            - 12 * prev_octave
+        )
         note.alter = (
-            INTERVAL_TO_SEMITONES[interval.quality + str(interval.number)] - diff_sm
+            prev_alter
+            + sign * INTERVAL_TO_SEMITONES[interval.quality + str(interval.number)]
+            - natural_diff
         )
 
 
